@@ -230,7 +230,7 @@ void do_start(int t)
   if (g_scn->sh)
   {
     quill::SignalHandlerOptions so;
-    so.timeout_seconds = 3;
+    so.timeout_seconds = 5;
     if (g_scn->named) so.logger = "L";
     quill::Backend::start<quill::FrontendOptions>(bo, so);
   }
@@ -447,15 +447,29 @@ int child_main(Scenario const& sc, Shm* shm, std::string const& dir)
     "L", std::move(sinks), quill::PatternFormatterOptions{"%(message)"},
     sc.tsc ? quill::ClockSourceType::Tsc : quill::ClockSourceType::System);
 
+  // helper threads are CREATED with the mask they need (a thread that blocks a signal only once it runs can be hit
+  // before it got that far)
+  sigset_t all, old;
+  sigfillset(&all);
+  pthread_sigmask(SIG_SETMASK, &all, &old);
   if (sc.gate == 1) (new std::thread(gatekeeper))->detach();
+  pthread_sigmask(SIG_SETMASK, &old, nullptr);
   bool used[MAXT] = {true, false, false};
   for (Step const& s : sc.steps)
   {
     if (s.t >= 0 && s.t < MAXT) used[s.t] = true;
     if (s.exec >= 0 && s.exec < MAXT) used[s.exec] = true;
   }
+  if (g_block_sig)
+  {
+    sigset_t one;
+    sigemptyset(&one);
+    sigaddset(&one, g_block_sig);
+    pthread_sigmask(SIG_BLOCK, &one, &old);
+  }
   for (int w = 1; w < MAXT; ++w)
     if (used[w]) g_threads[w] = new std::thread(worker_body, w);
+  if (g_block_sig) pthread_sigmask(SIG_SETMASK, &old, nullptr);
   if (run_thread(0)) return 0;
   park_forever();
 }
